@@ -28,9 +28,9 @@ func kinds(ks ...string) map[string]bool {
 	return m
 }
 
-var safetyKinds = []string{"bounds", "slice", "nil", "nilmap", "div0", "makesize", "typeassert", "negshift", "panic", "term", "alloc", "requires", "loop", "subset", "exists", "contract"}
+var safetyKinds = []string{"cover", "bounds", "slice", "nil", "nilmap", "div0", "makesize", "typeassert", "negshift", "panic", "term", "alloc", "requires", "loop", "subset", "exists", "contract"}
 
-var contractKinds = []string{"ensures", "requires", "loop", "frame", "term", "subset", "exists", "vacuity", "contract", "table",
+var contractKinds = []string{"cover", "ensures", "requires", "loop", "frame", "term", "subset", "exists", "vacuity", "contract", "table",
 	"bounds", "slice", "nil", "nilmap", "div0", "makesize", "typeassert", "negshift", "panic"}
 
 var props = map[string]*PropDef{}
@@ -71,6 +71,24 @@ func init() {
 		},
 		NotDecided: []string{"interoperation with an independent implementation is covered only through the RFC 4121 layouts stated as postconditions"},
 		LevelNote:  "Proved for every payload, flags byte, sequence number, key and usage: Marshal produces exactly the RFC 4121 4.2.6 layout; Unmarshal accepts exactly the byte strings with the right identifier, filler, direction flag and consistent EC and returns their fields; the checksum is et_cksum over { payload | header with EC=RRC=0 } (4.2.4); Verify returns true only if the token checksum equals that value; the initiator constructors use usages 24/25, flags 0.",
+	}
+	props["C07"] = &PropDef{
+		Funcs: []string{
+			`crypto/common.GetHash`, `crypto/common.GetChecksumHash`, `crypto/common.GetIntegrityHash`, `crypto/common.VerifyChecksum`,
+			`crypto/common.getUsage`, `crypto/common.GetUsageKc`, `crypto/common.GetUsageKe`, `crypto/common.GetUsageKi`,
+			`crypto/rfc4757.Checksum`, `crypto/rfc4757.HMAC`, `crypto/rfc4757.UsageToMSMsgType`,
+			`\(crypto\.[A-Za-z0-9]+\)\.(GetChecksumHash|VerifyChecksum|GetHashID|GetHashFunc|GetHMACBitLength|DeriveKey)`,
+			`crypto.GetChksumEtype`, `crypto.GetEtype`,
+		},
+		Kinds:           kinds(contractKinds...),
+		NeedObligations: true,
+		QuickTimeout:    20,
+		Assumptions: []string{
+			"HMAC and the hash functions are uninterpreted (hmac(fn,key,data), hashf(fn,data)); that they are HMAC-SHA1/SHA2/MD5 is not gokrb5 code",
+			"key derivation et_dk is taken at the level of the etype's DeriveKey contract here; its RFC definition (DK / KDF-HMAC-SHA2 / HMAC-MD5) is discharged for rfc8009 and rc4 and composed over the uninterpreted DR for rfc3961 (C08)",
+			"'not for other data, keys or usages' rests on the MAC assumption (distinct inputs give distinct MACs)",
+		},
+		LevelNote: "Proved for every key, usage and data: GetChecksumHash of each of the six types returns exactly et_cksum = truncate(HMAC(Kc, data)) with Kc = DK(key, be32(usage)|0x99) (RFC 3961 5.3, RFC 8009 5) or the RFC 4757 4 HMAC-MD5 composition with the Microsoft usage mapping; VerifyChecksum returns true only if the presented checksum equals that value (same length and bytes); checksum type ids map to the IANA-assigned families.",
 	}
 	props["C04"] = &PropDef{
 		Funcs: []string{
